@@ -19,13 +19,13 @@ RULE = ("random edit sequences (length <= 40) over {add_atom with/without charge
 ASSUMPTIONS = [
     "operations that change the atom count are not issued on Conformer/Substructure views (not defined there); views are "
     "only inspected for alignment",
-    "negative integer indices and parallel bonds (two bonds on one atom pair) are not generated",
+    "negative integer indices are not generated; with several bonds on one atom pair del_bond may remove any one of them",
     "an atom adopted through append_bond (foreign atom) was given no coordinate: any row / any numeric charge is accepted "
     "for it, after which it must keep them",
 ]
 REQUIRED = {"op.del_atom": 500, "op.del_atom.by-element": 50, "op.del_atom.by-label": 50, "op.add_atom.no-charge": 100,
             "op.append_bond.foreign": 50, "op.remove_substituent": 50, "op.add_implicit_hydrogens": 50,
-            "inspect": 5000, "op.raised": 50, "view.held-substructure-checked": 500, "op.connect.stale-or-foreign-atom": 20, "start.unpickled": 5, "start.mol2": 20, "exh.sequences": 1000}
+            "inspect": 5000, "op.raised": 50, "view.held-substructure-checked": 500, "op.extend_bonds.generator": 10, "op.del_bond.parallel": 5, "op.connect.stale-or-foreign-atom": 20, "start.unpickled": 5, "start.mol2": 20, "exh.sequences": 1000}
 CHUNK_TIMEOUT = 900
 TECHNIQUE = "runtime monitoring: identity-keyed edit model stepped beside real Molecule/Structure, invariant at quiescent points"
 LEVEL_TEXT = ("Held on the edit histories produced (random long + bounded-exhaustive short): after every edit the real object "
@@ -250,16 +250,38 @@ class Driver:
             elif kind in ("append_bonds", "extend_bonds"):
                 pairs = op[1]
                 bonds = [Bond(mod.resolve(i), mod.resolve(j)) for i, j in pairs]
+                if rng.random() < 0.4:
+                    # one of the bonds brings an atom that is not yet part of the molecule
+                    f = Atom(rng.choice(["H", "F"]), label=f"F{self.k}")
+                    self.k += 1
+                    bonds.append(Bond(mod.resolve(pairs[0][0]), f))
+                    mod.add(f, (0, 0, 0), 0.0)
+                    self.free.add(id(f))
+                    ctx.count("op.extend_or_append_bonds.foreign")
                 if kind == "append_bonds":
                     m.append_bonds(*bonds)
                 else:
-                    m.extend_bonds(bonds)
+                    # the argument is documented as an Iterable: a list, a tuple, a generator or an iterator
+                    form = rng.choice(["list", "tuple", "generator", "iterator"])
+                    ctx.count(f"op.extend_bonds.{form}")
+                    m.extend_bonds({"list": bonds, "tuple": tuple(bonds), "generator": (b for b in bonds),
+                                    "iterator": iter(bonds)}[form])
                 for b in bonds:
                     mod.add_bond(b)
             elif kind == "del_bond":
                 b = op[1]
+                twins = [x for x, p, q in mod.bonds if x is not b and {id(p), id(q)} == {id(b.a1), id(b.a2)}]
                 m.del_bond(b)
-                mod.del_bond(b)
+                if twins:
+                    # with several bonds on one atom pair, exactly one of them goes (which one is not prescribed)
+                    ctx.count("op.del_bond.parallel")
+                    left = {id(x) for x in m.bonds}
+                    gone = [x for x in [b] + twins if id(x) not in left]
+                    if len(gone) != 1:
+                        return self.v("del_bond:parallel-bonds:not-exactly-one-bond-removed", removed=len(gone))
+                    mod.del_bond(gone[0])
+                else:
+                    mod.del_bond(b)
             elif kind == "remove_substituent":
                 a1, a2 = op[1], op[2]
                 gone = mod.reach(a1, a2)
@@ -345,6 +367,11 @@ def pick_op(rng, d):
         from molli.chem import Atom
         return ("del_atom", "atom", Atom("C"))
     if r < 0.60 and n >= 2:
+        if mod.bonds and rng.random() < 0.06:
+            # a second bond between an already bonded pair (a drawing with a doubled line, a ligand bond on top of a
+            # covalent one): legal, and every member bond must keep reporting the molecule as its parent afterwards
+            _, p, q = rng.choice(mod.bonds)
+            return ("connect", p, q)
         if rng.random() < 0.15:
             # a stale handle (atom deleted earlier) or an atom of no molecule: must be refused, or at least never
             # leave a bond to a non-member behind
